@@ -59,4 +59,19 @@ func init() {
 			"sequences of transactions within one period: each transaction is checked against bonded stake at its own admission time (the statement's per-transaction reading); no cross-transaction accumulator exists in the code",
 		},
 	})
+	reg(&PropDef{
+		ID:    "C06",
+		Title: "The aggregate is the true weighted median / weighted mode of the reports",
+		Funcs: fcNP("x/oracle/keeper.Keeper.WeightedMedian", "x/oracle/keeper.Keeper.WeightedMode"),
+		Assumptions: []string{
+			"preconditions from the property's quantifier: non-empty report set, every power >= 1 and < 2^63, total power (every prefix total) < 2^63, median values accepted by big.Int.SetString(.,16), one report per reporter",
+			"sort.SliceStable returns a permutation ordered with respect to the less closure (trusted sort specification); a sum over a slice sorted in place equals the sum over the slice before sorting (trusted lemma attached to the sort specification)",
+			"hexnum/ishex: uninterpreted numeric value / validity of a base-16 numeral (big.Int.SetString specification)",
+			"the index form proved here (reports strictly before the chosen index hold less than half, up to and including it at least half, in non-decreasing value order) implies the set form of the statement; that implication is an argument on paper, not machine-checked",
+		},
+		NotDecided: []string{
+			"dispatch in SetAggregatedReport (median iff the first report's recorded method is weighted-median): index iterators are outside the modelled library surface",
+			"independence of the chosen median value from arrival order as a theorem over multisets (follows from sortedness + half conditions; not machine-checked)",
+		},
+	})
 }
